@@ -77,6 +77,68 @@ def recv_site(body, what):
     return own
 
 
+import json
+import os
+
+BODIES = os.path.join(os.path.dirname(os.path.abspath(__file__)), 'snapshots', 'GenLimits.bodies.json')
+
+
+def fingerprint(body):
+    t = re.sub(r'\s+', '', body)
+    t = re.sub(r'mem_size>=?(\w+)\{', r'mem_size?\1{', t)
+    return t
+
+
+def send_tail(body, what):
+    """from the encode call to the end of the function: encode, read the limit, compare, write - nothing else may touch `block`"""
+    i = body.find('let mut block = BytesMut::new();')
+    if i < 0:
+        raise AnchorLost(what + ': block')
+    return fingerprint(body[i:])
+
+
+def whole_bodies(repo):
+    out = {}
+    cc = Source(repo + '/h3/src/client/connection.rs')
+    body, _ = cc.fn_body('send_request')
+    out['send_request'] = send_tail(body, 'send_request')
+    ss = Source(repo + '/h3/src/server/stream.rs')
+    body, _ = ss.fn_body('send_response')
+    out['send_response'] = fingerprint(body)
+    co = Source(repo + '/h3/src/connection.rs')
+    body, _ = co.fn_body('send_trailers')
+    out['send_trailers'] = fingerprint(body)
+    body, _ = co.fn_body('split')
+    out['split'] = fingerprint(body)
+    sr = Source(repo + '/h3/src/server/request.rs')
+    body, _ = sr.fn_body('resolve')
+    i = body.find('Header::try_from(fields)')
+    out['resolve (too-big arm)'] = fingerprint(body[:i])
+    body, _ = sr.fn_body('accept_with_frame')
+    i = body.find('let decoded = match qpack::decode_stateless')
+    out['accept_with_frame (decode)'] = fingerprint(body[i:])
+    cs = Source(repo + '/h3/src/client/stream.rs')
+    body, _ = cs.fn_body('recv_response')
+    i, j = body.find('let decoded = if let Frame::Headers'), body.find('let qpack::Decoded { fields, .. } = decoded;')
+    out['recv_response (decode)'] = fingerprint(body[i:j])
+    body, _ = cs.fn_body('poll_recv_trailers')
+    out['client poll_recv_trailers'] = fingerprint(body)
+    body, _ = co.fn_body('poll_recv_trailers')
+    i = body.find('let qpack::Decoded { fields, .. } =')
+    out['poll_recv_trailers (decode)'] = fingerprint(body[i:])
+    return out
+
+
+def check_bodies(repo):
+    got = whole_bodies(repo)
+    want = json.load(open(BODIES))
+    for k in sorted(set(got) | set(want)):
+        if got.get(k) != want.get(k):
+            a, b = want.get(k) or '', got.get(k) or ''
+            i = next((j for j in range(min(len(a), len(b))) if a[j] != b[j]), min(len(a), len(b)))
+            raise AnchorLost('%s: body differs from the recorded one at "...%s" (now "...%s")' % (k, a[max(0, i - 30):i + 30], b[max(0, i - 30):i + 30]))
+
+
 def src_kind(expr, what):
     e = re.sub(r'\s+', '', expr)
     if e in ('self.max_field_section_size', 'self.config.settings.max_field_section_size', 'max_field_section_size',
@@ -243,6 +305,7 @@ def extract(repo):
     if not re.search(r'\.settings\s*\.get\(\)\s*\.map\(Cow::Borrowed\)\s*\.unwrap_or_default\(\)', re.sub(r'\s+', '', body).replace('.settings.get()', '.settings .get()')) \
             and not re.search(r'settings\.get\(\)\.map\(Cow::Borrowed\)\.unwrap_or_default\(\)', re.sub(r'\s+', '', body)):
         raise AnchorLost('ConnectionState::settings')
+    check_bodies(repo)
     return f, spans
 
 
@@ -282,5 +345,8 @@ def render(f):
 
 if __name__ == '__main__':
     import sys
+    if len(sys.argv) > 2 and sys.argv[2] == '--record':
+        json.dump(whole_bodies(sys.argv[1]), open(BODIES, 'w'), indent=0, sort_keys=True)
+        sys.exit(0)
     facts, spans = extract(sys.argv[1] if len(sys.argv) > 1 else '/repo')
     sys.stdout.write(render(facts))
